@@ -13,7 +13,10 @@ import (
 
 var (
 	definedHashTypes   = []byte{1, 1, 1, 2, 3, 0x81, 0x82, 0x83}
-	undefinedHashTypes = []byte{0, 4, 5, 0x1f, 0x20, 0x41, 0x80, 0x84, 0xe1, 0xff}
+	// undefined hash types: besides the obvious ones, bytes whose low five bits
+	// select NONE/SINGLE while bits 0x20/0x40 are set (BIP143 and the legacy
+	// digest mask with 0x1f; a mask of ~0x80 would treat them as ALL)
+	undefinedHashTypes = []byte{0, 4, 5, 0x1f, 0x20, 0x41, 0x80, 0x84, 0xe1, 0xff, 0x22, 0x23, 0x42, 0x43, 0x62, 0x63, 0xa2, 0xa3, 0xc2, 0xc3, 0xe2, 0xe3}
 	tapHashTypes       = []byte{0, 0, 1, 2, 3, 0x81, 0x82, 0x83}
 	tapBadHashTypes    = []byte{4, 0x10, 0x80, 0x84, 0x7f, 0xff}
 )
